@@ -159,6 +159,28 @@ async def one_pair(loop, v, name, seq, txv, txb, rxv, rxb) -> Result:
             # keyword order must not matter: the declared order decides the wire order
             forms.append(("keyword-reversed", [], dict(reversed(list(zip(keys, txv))))))
             forms.append(("mixed-reversed", list(txv[:1]), dict(reversed(list(zip(keys[1:], txv[1:]))))))
+    # integer-like arguments may arrive as plain ints or as values of another fixed-width type (callers do both): the
+    # DECLARED type decides the encoding
+    if keys:
+        import bellows.types as bt
+
+        def other(v, T):
+            if not isinstance(v, int) or isinstance(v, bool) or int(v) < 0 or not (isinstance(T, type) and issubclass(T, int)):
+                return v, v
+            size = getattr(T, "_size", None)
+            iv = int(v)
+            if iv < 256 and size != 1:
+                return iv, bt.uint8_t(iv)
+            if iv < 2 ** 32 and size != 4:
+                return iv, bt.uint32_t(iv)
+            if iv < 2 ** 64 and size != 8:
+                return iv, bt.uint64_t(iv)
+            return iv, v
+
+        pairs = [other(v, tx_schema[k]) for k, v in zip(keys, txv)]
+        if any(p[0] is not v or p[1] is not v for p, v in zip(pairs, txv)):
+            forms.append(("plain-ints", [], dict(zip(keys, [p[0] for p in pairs]))))
+            forms.append(("other-width-ints", [p[1] for p in pairs], {}))
     for form, args, kwargs in forms:
         h._seq = seq
         n0 = len(gw.sent)
@@ -221,6 +243,14 @@ async def one_pair(loop, v, name, seq, txv, txb, rxv, rxb) -> Result:
         r.bad(f"C07:receive-raises:{name}", f"v{v}: {ex!r}")
     if len(got_cb) != 1 or got_cb[0][0] != name or not _same(got_cb[0][1], rxv):
         r.bad(f"C07:callback-mismatch:{name}", f"v{v} {name}: callbacks got {got_cb!r} want {rxv!r}")
+    else:
+        # the same encoding once more (an NCP may well report the same thing twice): it yields the same values again
+        try:
+            ezsp.frame_received(refezsp.header(v, (seq + 7) % 256, cid, refezsp.CALLBACK) + rxb)
+        except Exception as ex:
+            r.bad(f"C07:receive-raises:{name}", f"v{v}: {ex!r}")
+        if len(got_cb) != 2 or got_cb[1][0] != name or not _same(got_cb[1][1], rxv):
+            r.bad("C07:repeated-frame-not-decoded-again", f"v{v} {name}: second identical frame gave {got_cb[1:]!r}, want {rxv!r}")
     if _trailing:
         r.bad(f"C07:trailing-data:{name}", f"v{v} {name} (callback): {_trailing[:1]}")
     return r
